@@ -156,3 +156,7 @@ def db_rows(table):
 
 def uf_int(name, *args):
     raise NotImplementedError("uf_int(%s) has no native reading" % name)
+
+
+def is_integer(x):
+    return float(x).is_integer()
